@@ -50,7 +50,7 @@ class CmsDriver:
         self.cells = {k: self._cells(k) for k in self.pool}
 
     def _cells(self, key):
-        hs = (self.hf or __import__("probables").hashes.default_fnv_1a)(key, self.d)
+        hs = (self.hf if self.hf is not None else __import__("probables").hashes.default_fnv_1a)(key, self.d)
         return [(h % self.w) + i * self.w for i, h in enumerate(hs)]
 
     def _o(self, n):
@@ -99,6 +99,8 @@ class CmsDriver:
             n = op[2]
             if self.total + n >= 2 ** 31 - 1:
                 n = 1
+            if n == 0:
+                self.feats.add("add_zero_amount")
             if not alt:
                 r = ctx.call(self.noexc, o.add, k, n)
             elif self.cls == "cms":
@@ -301,9 +303,10 @@ def case_strategy(tier, classes=("cms",), allow_clear=False, max_ops=40, small=F
     from .. import gen
 
     ki = st.integers(0, 11)
-    amt = st.one_of(st.integers(1, 5), st.integers(1, 5), st.integers(1, 3), st.integers(1, 2 ** 20))
+    # an amount of 0 is a valid call too: nothing is counted, but the call returns the key's estimate like any other add
+    amt = st.one_of(st.integers(1, 5), st.integers(1, 5), st.integers(1, 3), st.integers(1, 2 ** 20), st.sampled_from([0, 0, 1, 7]))
     if small:
-        amt = st.integers(1, 4)
+        amt = st.one_of(st.integers(1, 4), st.integers(1, 4), st.integers(0, 4))
 
     @st.composite
     def case(draw):
